@@ -15,6 +15,8 @@ pub enum Sym {
     Pd { name: &'static str, arity: usize },
     Inv,
     X,
+    /// independent_variable called with a zero-length vector (the call was made: not "missing")
+    XEmpty,
     Init(usize),
 }
 
@@ -25,6 +27,7 @@ impl Sym {
             Sym::Pd { name, arity } => format!("partial_deriv({:?},arity{})", name, arity),
             Sym::Inv => "invariant_function".into(),
             Sym::X => "independent_variable".into(),
+            Sym::XEmpty => "independent_variable(empty)".into(),
             Sym::Init(n) => format!("initial_parameters(len{})", n),
         }
     }
@@ -121,7 +124,7 @@ pub fn reference_defects(w: &Word) -> BTreeSet<String> {
                 finalize(&mut pending, &mut funcs, &mut d);
                 funcs.push(FuncRec { names: vec![], derivs: vec![], invariant: true });
             }
-            Sym::X => {
+            Sym::X | Sym::XEmpty => {
                 finalize(&mut pending, &mut funcs, &mut d);
                 has_x = true;
             }
@@ -218,6 +221,7 @@ pub fn apply(b: SeparableModelBuilder<f64>, s: &Sym) -> SeparableModelBuilder<f6
         },
         Sym::Inv => b.invariant_function(|x: &DVector<f64>| x.clone()),
         Sym::X => b.independent_variable(DVector::from_vec(vec![1.0, 2.0, 3.0])),
+        Sym::XEmpty => b.independent_variable(DVector::from_vec(vec![])),
         Sym::Init(n) => b.initial_parameters(vec![1.5; *n]),
     }
 }
